@@ -6,23 +6,30 @@ package tuning
 // It contains no code; with the build tag off the file is not even compiled.
 //
 // Property C20: batches partition the index range and chunks partition each batch.  The iterator
-// bodies are the closures Batches$1 / Chunks$1; yield is called through a function value under the
-// callback contract: the range handed over starts at the loop cursor, is non-empty, stays inside the
-// total and ends either one full step later or at the end.  Successive cursors are exactly one step
-// apart, so consecutive ranges tile [0, numEntries) resp. the batch, without gap or overlap.
+// bodies are the closures Batches$1 / Chunks$1; yield is called through a function value under a
+// callback contract.  tcur is a ghost cursor: the end of the last range handed to yield.  Every range
+// handed over starts exactly at the cursor, is non-empty and stays inside the total, and the loop can
+// only run out when the cursor has reached the end: consecutive ranges tile the interval without gap
+// or overlap, whatever the step constants are.
 //
+//@ ghost tcur int
+//@
 //@ func Batches$1
 //@   props C20
-//@   requires 0 <= numEntries && numEntries < 1<<61
-//@   callback-requires 0 <= start && start < end && end <= numEntries && (end == start + 100000 || end == numEntries)
+//@   requires 0 <= numEntries && numEntries < 1<<61 && tcur == 0
+//@   callback-requires start == tcur && start < end && end <= numEntries
+//@   callback-modifies tcur
+//@   callback-ensures tcur == end
 //@   nopanic
-//@   loop 1: invariant 0 <= start && start < numEntries + 100000
-//@   loop 1: modifies nothing
+//@   loop 1: invariant 0 <= start && start < 1<<62 && (start == tcur || (tcur == numEntries && start >= numEntries))
+//@   loop 1: modifies tcur
 //@
 //@ func Chunks$1
 //@   props C20
-//@   requires 0 <= batch.Start && batch.Start <= batch.End && batch.End < 1<<61
-//@   callback-requires batch.Start <= start && start < end && end <= batch.End && (end == start + 6250 || end == batch.End)
+//@   requires 0 <= batch.Start && batch.Start <= batch.End && batch.End < 1<<61 && tcur == batch.Start
+//@   callback-requires start == tcur && start < end && end <= batch.End
+//@   callback-modifies tcur
+//@   callback-ensures tcur == end
 //@   nopanic
-//@   loop 1: invariant batch.Start <= start && start < batch.End + 6250
-//@   loop 1: modifies nothing
+//@   loop 1: invariant batch.Start <= start && start < 1<<62 && (start == tcur || (tcur == batch.End && start >= batch.End))
+//@   loop 1: modifies tcur
